@@ -184,6 +184,17 @@ WITNESSES = [
     dict(id="c15-blocks-target-compat", prop="C15", file=S, expect="R15h",
          old="                    if any(spin != idx_map[t_idx]\n                           for t_idx, spin in target_spin.items()\n                           if t_idx in idx_map):\n                        continue\n",
          new=""),
+    dict(id="c15-contradiction-ignored", prop="C15", file=S, expect="R15f",
+         old='                if idx_map["a"] & addition["b"] or \\\n                        idx_map["b"] & addition["a"]:', new='                if False:'),
+    dict(id="c15-unassigned-target-both-spins", prop="C15", file=S, expect="R15f",
+         old="                    if spin is not None:  # is a target index -> just add", new="                    if False:"),
+    dict(id="c15-result-overwritten", prop="C15", file=S, expect="R15f",
+         old="        result += simplify(contribution)", new="        result = simplify(contribution)"),
+    dict(id="c15-blocks-search-ignored", prop="C15", file=S, expect="R15h",
+         old='            if not _has_valid_combination(relevant_term_spin_idx_maps, 0,\n                                          spin_idx_map):\n                continue',
+         new='            _has_valid_combination(relevant_term_spin_idx_maps, 0, spin_idx_map)'),
+    dict(id="c15-itmd-blocks-targets", prop="C15", file="intermediates.py", expect="R15h",
+         old="        return allowed_spin_blocks(itmd.expand(), target_idx)", new="        return allowed_spin_blocks(itmd.expand(), target_idx[::-1])"),
     # ------------------------------------------------------------------ behaviour preserving
     dict(id="c15-ok-copy-comprehension", prop="C15", file=S, expect=None, old=_COPY,
          new="                        complete_variant = {\"a\": set(idx_map[\"a\"]), \"b\": set(idx_map[\"b\"])}"),
@@ -282,4 +293,51 @@ WITNESSES = [
     dict(id="c15-ok-no-blocks-loop", prop="C15", file=E, expect=None,
          old='        return tuple("".join(b) for b in product(*allowed_blocks))',
          new='        blocks = [""]\n        for op_blocks in allowed_blocks:\n            blocks = [b + sp for b in blocks for sp in op_blocks]\n        return tuple(blocks)'),
+    # the per-object block filter extracted into a module level helper written with dict.get and set comprehensions
+    dict(id="c15-ok-extracted-block-helper", prop="C15", file=S, expect=None, edits=[
+        ('''            obj_idx = obj.idx
+            obj_spin_idx_maps = []
+            for block in allowed_blocks:
+                valid = True
+                idx_map = {"a": set(), "b": set()}
+''' + _FILTER_OLD + '''                if not valid:
+                    continue
+                if idx_map["a"] & idx_map["b"]:
+                    raise ValueError("Found invalid allowed spin block "
+                                     f"{block} for {obj}.")
+                obj_spin_idx_maps.append(idx_map)
+''', '''            obj_spin_idx_maps = _compatible_blocks(obj, allowed_blocks,
+                                                   target_idx_spin_map)
+'''),
+        ("def allowed_spin_blocks(expr: Expr, target_idx: str) -> tuple[str]:", '''def _compatible_blocks(obj, allowed_blocks, fixed_spins):
+    maps = []
+    for block in allowed_blocks:
+        pairs = list(zip(block, obj.idx))
+        if any(fixed_spins.get(idx, spin) != spin for spin, idx in pairs):
+            continue
+        idx_map = {sp: {idx for spin, idx in pairs if spin == sp}
+                   for sp in "ab"}
+        if not idx_map["a"].isdisjoint(idx_map["b"]):
+            raise ValueError("Found invalid allowed spin block "
+                             f"{block} for {obj}.")
+        maps.append(idx_map)
+    return maps
+
+
+def allowed_spin_blocks(expr: Expr, target_idx: str) -> tuple[str]:''')]),
+    # dispatch on the public type string instead of isinstance
+    dict(id="c15-ok-dispatch-type-str", prop="C15", file=E, expect=None, edits=[
+        ("        elif isinstance(obj, KroneckerDelta):  # delta\n            # spins have to be equal", "        elif self.type_as_str == 'delta':  # delta\n            # spins have to be equal"),
+        ("        elif isinstance(obj, FermionicOperator):  # create / annihilate", "        elif self.type_as_str in ('create', 'annihilate'):  # create / annihilate")]),
+    # indices and exponent read from base_and_exponent / upper + lower
+    dict(id="c15-ok-base-and-exponent", prop="C15", file=E, expect=None, edits=[
+        ("            p, q, r, s = self.idx  # <pq||rs>", "            base, exponent = self.base_and_exponent\n            p, q, r, s = base.upper + base.lower  # <pq||rs>"),
+        ("            res = Pow(res, self.exponent)\n        else:  # nothing to do", "            res = Pow(res, exponent)\n        else:  # nothing to do")]),
+    # keyword call in another order
+    dict(id="c15-ok-integrate-keywords", prop="C15", file=S, expect=None,
+         old="    expr = integrate_spin(expr, target_idx, target_spin)", new="    expr = integrate_spin(target_spin=target_spin, expr=expr, target_idx=target_idx)"),
+    # intermediates: temporaries removed, keywords
+    dict(id="c15-ok-itmd-blocks-inline", prop="C15", file="intermediates.py", expect=None,
+         old="        target_idx = self.default_idx\n        itmd = self.expand_itmd(indices=target_idx, fully_expand=False)\n        return allowed_spin_blocks(itmd.expand(), target_idx)",
+         new="        definition = self.expand_itmd(self.default_idx, fully_expand=False)\n        return allowed_spin_blocks(target_idx=self.default_idx,\n                                   expr=definition.expand())"),
 ]
